@@ -29,7 +29,15 @@ CON = ("con",)  # the transport connection comes up, no Select.req yet (connecte
 CFG = ("cfg",)  # the application changes the configured establish-communications delay (public settings setter)
 RX13 = ("rx", 1, 13, 1, "in", None)
 RX13Z = ("rx", 1, 13, 1, "zero", None)  # system bytes 0x00000000
-DELAYS = [3, 17, 10, 1, 25]
+DELAYS = [3, 17, 0, 10, 1, 25]
+
+
+def init(delay, t3=None):
+    """first letter of a history: the settings the handler is constructed with (None = not passed: the documented default)"""
+    return ("init", delay, t3)
+
+
+S1F17 = ("rx", 1, 17, 1, "in", None)  # Request ON-LINE: brings the equipment's control state ON-LINE (REMOTE)
 USER_CB = (64, 1)  # an uncatalogued stream/function with a user callback (counts calls, returns None)
 
 
@@ -59,6 +67,8 @@ OTHER = [("rx", 1, 1, 1, "in", None), ("rx", 1, 1, 0, "in", None), ("rx", USER_C
 
 
 def letter_name(lt):
+    if lt[0] == "init":
+        return f"init(delay={lt[1]},t3={lt[2]})"
     if lt[0] != "rx":
         return lt[0]
     s, f, w, kind, c = lt[1:]
@@ -78,8 +88,9 @@ def s1f14_body(commack):
 class Run:
     """one history against one real handler"""
 
-    def __init__(self, role, commack_req):
-        self.rig = Rig(role, commack_req, user_cbs=[USER_CB])
+    def __init__(self, role, commack_req, delay=None, t3=None):
+        self.rig = Rig(role, commack_req, user_cbs=[USER_CB], delay=delay, t3=t3)
+        self.dead = False
         self.role, self.commack_req = role, commack_req
         self.sys2id: dict[int, int] = {}
         self.ids: list[int] = []  # real system bytes of the S1F13 seen on the wire, in order
@@ -115,9 +126,12 @@ class Run:
         info = {}
         m = rig.h._communication_state
         timers_before = (id(m._wait_cra_timer), id(m._comm_delay_timer))
-        if lt == CFG:
+        if lt[0] == "init":
+            token = "cfg"  # the settings were given to the constructor; for the model: nothing happens
+        elif lt == CFG:
             self.ncfg = getattr(self, "ncfg", 0) + 1
-            rig.settings.establish_communication_timeout = DELAYS[self.ncfg % len(DELAYS)]
+            rig.configured_delay = DELAYS[self.ncfg % len(DELAYS)]
+            rig.settings.establish_communication_timeout = rig.configured_delay
         elif lt == EN:
             try:
                 rig.bounded(rig.h.enable, "enable()")
@@ -137,8 +151,13 @@ class Run:
         elif lt in (CON, SEL, LOST):
             try:
                 {CON: rig.connect, SEL: rig.select, LOST: rig.lose}[lt]()
-            except Stuck:
-                raise
+            except Stuck as exc:
+                if lt != LOST:
+                    raise
+                # the connection reported the loss and the handler has not come back within the bound: the history ends here,
+                # what is observable now is judged (the rig's helper thread is abandoned)
+                info["wedged"] = str(exc)
+                self.dead = True
             except Exception as exc:  # noqa: BLE001  (the protocol layer refuses the event: recorded, the history goes on)
                 info["raised"] = type(exc).__name__
         elif lt in (T3, DLY):
@@ -184,9 +203,9 @@ class Run:
         t3_a, dl_a = self.timers()
         # a timer armed by this step must carry the duration that is configured now
         if t3_a and id(m._wait_cra_timer) != timers_before[0]:
-            info["t3_armed_with"] = (m._wait_cra_timer.interval, rig.settings.timeouts.t3)
+            info["t3_armed_with"] = (m._wait_cra_timer.interval, rig.configured_t3)
         if dl_a and id(m._comm_delay_timer) != timers_before[1]:
-            info["delay_armed_with"] = (m._comm_delay_timer.interval, rig.settings.establish_communication_timeout)
+            info["delay_armed_with"] = (m._comm_delay_timer.interval, rig.configured_delay)
         # timers that are pending although the machine is not in their state, or that are not the one armed on entering it
         stale = [("T3", t) for t in rig.timers("_on_wait_cra_timeout") if rig.comm() != "WAIT_CRA" or t is not m._wait_cra_timer] + \
                 [("delay", t) for t in rig.timers("_on_wait_comm_delay_timeout") if rig.comm() != "WAIT_DELAY" or t is not m._comm_delay_timer]
@@ -229,7 +248,7 @@ def show_step(st):
 
 
 # ------------------------------------------------------------------------------------------------ direct oracle
-FAULT_CLASSES = ("established-after-loss", "reported-established-wrongly", "callback-while-not-established", "stale-timer",
+FAULT_CLASSES = ("established-after-loss", "wedged", "reported-established-wrongly", "callback-while-not-established", "stale-timer",
                  "event-without-establishment")
 
 
@@ -282,7 +301,11 @@ def _oracle(steps):
             bad.append(("established-after-loss", "COMMUNICATING while the link is down", i))
         # clause 3: loss of the link / disabling leaves the established state
         if (lt == DIS or (lt == LOST and st["conn_before"])) and after == "COMMUNICATING":
-            bad.append(("established-after-loss", f"still COMMUNICATING after {lt[0]}", i))
+            bad.append(("established-after-loss", f"still COMMUNICATING after {lt[0]}"
+                        + (f" ({gemrig.WAIT} s after the connection reported the loss; the handler is blocked in {st['info']['wedged']})"
+                           if "wedged" in st["info"] else ""), i))
+        elif "wedged" in st["info"]:
+            bad.append(("wedged", f"the handler blocks for ever in {st['info']['wedged']}", i))
         # clause 2: an unanswered / refused attempt is retried after the delay, as long as the link stays up
         if st["link_after"]:
             if after == "WAIT_CRA" and not st["t3_after"]:
@@ -330,9 +353,12 @@ def history_tokens(role, commack_req, flags, tokens):
 
 
 def run_history(role, commack_req, letters):
-    r = Run(role, commack_req)
+    cfg = letters[0] if letters and letters[0][0] == "init" else ("init", None, None)
+    r = Run(role, commack_req, delay=cfg[1], t3=cfg[2])
     try:
         for lt in letters:
+            if r.dead:
+                break
             r.apply(lt)
     finally:
         r.close()
@@ -415,8 +441,20 @@ def gen_histories(rng, tier, search):
                 for tail in ([], [SEL], [EN], [SEL, rx14("match", 0)]):
                     out.append((role, 0, base + [FAIL, trig, LOST] + tail, "fault"))
                     out.append((role, 0, base + [FAIL, trig, trig, LOST] + tail, "fault"))
+    # the settings the handler is constructed with (0 s, small, default) x an attempt that fails: the timers must carry them
+    for role in ("equipment", "host"):
+        for cfg in (init(0), init(3), init(None), init(0, 0), init(None, 7), init(1, 120)):
+            for fail in ([T3], [rx14("match", 1)], [rx14("match", "empty")]):
+                for tail in ([], [DLY], [DLY, T3], [CFG, DLY, T3], [LOST, DLY, SEL, T3]):
+                    out.append((role, 0, [cfg, EN, SEL] + fail + tail, "exh-settings"))
+    # the equipment is brought ON-LINE (S1F17) before the link is lost / the handler is disabled
+    for role in ("equipment", "host"):
+        for est in ([rx14("match", 0)], [RX13]):
+            for mid in ([S1F17], [S1F17, OTHER[0]], [S1F17, ("rx", 1, 15, 1, "in", None)], [S1F17, ("rx", 1, 15, 1, "in", None), S1F17]):
+                for end in ([LOST], [LOST, SEL], [DIS], [LOST, CON, DLY], [LOST, SEL, rx14("match", 0), S1F17, LOST]):
+                    out.append((role, 0, [EN, SEL] + est + mid + end, "exh-online"))
     n_rand = 3000 if big else 500
-    weights = [CON] * 3 + [EN] * 2 + [DIS] + [SEL] * 3 + [LOST] * 2 + [T3] * 3 + [DLY] * 3 + [RX13] * 2 + ["rx14"] * 5 + ["other"] * 3 + [CFG] * 2 + [RX13Z]
+    weights = [CON] * 3 + [S1F17] + [EN] * 2 + [DIS] + [SEL] * 3 + [LOST] * 2 + [T3] * 3 + [DLY] * 3 + [RX13] * 2 + ["rx14"] * 5 + ["other"] * 3 + [CFG] * 2 + [RX13Z]
     # the configured delay changes, then an attempt fails; an S1F13 with system bytes 0: all words of length <= 2 from three prefixes
     for role in ("equipment", "host"):
         for base in ([EN, SEL], [CFG, EN, SEL, T3, DLY], [EN, SEL, rx14("match", 0), CFG, LOST]):
@@ -477,6 +515,8 @@ def run_slice(hs, idxs):
             wedged += 1
             out.append({"i": i, "stuck": str(exc)})
             continue
+        if any("wedged" in st["info"] for st in r.steps):
+            wedged += 1
         stats = {}
 
         def bump(h, k):
